@@ -167,3 +167,11 @@ Proof.
   apply andb_true_iff in H. destruct H as [H1 H2]. cbn [fst snd] in H1. apply andb_true_iff in H1. destruct H1 as [E1 E2].
   apply Z.eqb_eq in E1. apply msa_read_eqb_eq in E2. subst. f_equal. apply IH. exact H2.
 Qed.
+
+Theorem msa_triples_eqb_eq : forall a b, triples_eqb a b = true -> a = b.
+Proof.
+  induction a as [|[[r k] m] a IH]; destruct b as [|[[r' k'] m'] b]; unfold triples_eqb; cbn [list_eqb]; intros H; try discriminate H; [reflexivity|].
+  apply andb_true_iff in H. destruct H as [H1 H2]. cbn [fst snd] in H1.
+  apply andb_true_iff in H1. destruct H1 as [H1 E3]. apply andb_true_iff in H1. destruct H1 as [E1 E2].
+  apply str_eqb_eq in E1. apply Z.eqb_eq in E2. apply msa_read_eqb_eq in E3. subst. f_equal. apply IH. exact H2.
+Qed.
